@@ -91,6 +91,8 @@ def main():
             d = os.path.join(VERIF, 'seeded', sid)
             meta = json.load(open(os.path.join(d, 'meta.json')))
             prop = meta.get('property') or meta.get('breaks_property')
+            if os.path.exists(os.path.join(d, 'detected.json')) and not os.environ.get('SCORE_FORCE'):
+                continue
             sh('git checkout -- . && git clean -fdq', cwd=WT)
             rc, o = sh('git apply %s' % os.path.join(d, 'patch.diff'), cwd=WT)
             if rc != 0:
@@ -99,7 +101,10 @@ def main():
                 continue
             res = {}
             tier = 'thorough' if sid in THOROUGH else 'quick'
-            for cid in (ALL if meta.get('kind') == 'benign' else RELATED.get(prop, [prop])):
+            order = ALL if meta.get('kind') == 'benign' else ([prop] + [c for c in RELATED.get(prop, [prop]) if c != prop])
+            for cid in order:
+                if meta.get('kind') != 'benign' and any(r['violations'] for r in res.values()):
+                    break       # already reported by an earlier check: the remaining related checks are not needed
                 rc, o = sh('python3 %s/verif check %s --tier %s' % (VERIF, cid, tier), cwd=VERIF, env=dict(env, VERIF_EVIDENCE='/tmp/score/evidence' + tag))
                 viol = [l for l in o.splitlines() if l.startswith('VIOLATION')]
                 first = [l.strip() for l in o.splitlines() if l.startswith('  [')][:2]
